@@ -396,7 +396,7 @@ func (eng *Engine) writeHints(results []*OblResult) {
 		if r == nil || r.Obl == nil || r.Obl.probe {
 			continue
 		}
-		if r.Status == "proved" && r.Solver != solvers[0].Name && !strings.Contains(r.Solver, "+split") {
+		if r.Status == "proved" && r.Solver != solvers[0].Name && !strings.Contains(r.Solver, "+split") && r.Solver != "unreachable-return" {
 			hints[r.Obl.name] = r.Solver
 		} else if r.Status == "proved" {
 			delete(hints, r.Obl.name)
